@@ -130,10 +130,15 @@ func (g *Gen) inputRaw(n *Node) IVal {
 	case KInt, KInt64, KInt32:
 		c := r.Intn(100)
 		switch {
-		case c < 35:
+		case c < 32:
 			return intV(int64(r.Intn(16) - 3))
-		case c < 45:
+		case c < 35:
+			// beyond the integers a float64 represents exactly
+			return intV(Pick(r, []int64{(1 << 53) + 1, 1700000000000000001, -(1 << 53) - 1, (1 << 62) + 1, 2147483648, -2147483649}))
+		case c < 42:
 			return IVal{Kind: "int64", I: int64(r.Intn(16) - 3)}
+		case c < 45:
+			return IVal{Kind: "int64", I: Pick(r, []int64{(1 << 53) + 1, 1700000000000000001, -(1 << 53) - 1, (1 << 62) + 1, 2147483648, -2147483649})}
 		case c < 50:
 			return IVal{Kind: "int32", I: int64(r.Intn(16) - 3)}
 		case c < 65:
@@ -342,6 +347,9 @@ func (g *Gen) destRaw(n *Node, t reflect.Type, populated bool) reflect.Value {
 			x := int64(r.Intn(16) - 3)
 			if populated && x == 0 {
 				x = 4
+			}
+			if n.Kind != KInt32 && r.P(8) {
+				x = Pick(r, []int64{(1 << 53) + 1, 1700000000000000001, -(1 << 53) - 1, (1 << 62) + 1})
 			}
 			v.SetInt(x)
 		}
